@@ -194,3 +194,86 @@ func TestC15B_HostileRegress(t *testing.T) {
 		t.Fatalf("HARNESS: finding %s is listed as known but its minimal input no longer panics; if the defect was repaired set its status to \"fixed\"", c15bFpETXPanic)
 	}
 }
+
+// TestC15B_OperandsExhaustive enumerates, for every opcode with at most three operands, EVERY
+// operand tuple over the 18 boundary values, in contexts with empty and with non-empty return data
+// (quick) plus pre-expanded memory / failed-creation return data and calldata (thorough). Same
+// oracle: no panic, memory bounded by the gas budget. Sharded by tuple index.
+func TestC15B_OperandsExhaustive(t *testing.T) {
+	u := evmgen.U()
+	ctxs := []int{0, 1}
+	if stats.Thorough() {
+		ctxs = []int{0, 1, 2, 3}
+	}
+	idx := 0
+	n := 0
+	for _, op := range c15bOpList {
+		pops := c15bOpPops[op]
+		if pops > 3 {
+			continue
+		}
+		total := 1
+		for i := 0; i < pops; i++ {
+			total *= len(c15bHostile)
+		}
+		for tup := 0; tup < total; tup++ {
+			for _, ctx := range ctxs {
+				idx++
+				if idx%stats.NShards() != stats.Shard() {
+					continue
+				}
+				operands := make([]*big.Int, pops)
+				x := tup
+				for i := 0; i < pops; i++ {
+					operands[i] = c15bHostile[x%len(c15bHostile)]
+					x /= len(c15bHostile)
+				}
+				c := c15bHand(200_000, func(a *evmgen.Asm) {
+					switch ctx {
+					case 1:
+						a.PushBig(c15bHostile[len(c15bHostile)-1]).Push(0).Op(vm.MSTORE)
+						a.Push(32).Push(32).Push(32).Push(0).Push(0).PushAddr(u.Precompiles[3]).Op(vm.GAS, vm.CALL, vm.POP)
+					case 2:
+						a.Push(1).Push(1023).Op(vm.MSTORE8)
+					case 3:
+						a.Push(0).Push(0).Push(0).Op(vm.CREATE, vm.POP)
+					}
+					for i := len(operands) - 1; i >= 0; i-- {
+						a.PushBig(operands[i])
+					}
+					a.Op(op, vm.STOP)
+				})
+				c.Mode = evmgen.ModeUntraced
+				if stats.Thorough() && tup%2 == 1 {
+					c.Tx.Data = make([]byte, 36)
+				}
+				var ops []string
+				for _, o := range operands {
+					ops = append(ops, "0x"+o.Text(16))
+				}
+				var o *evmgen.Outcome
+				var err error
+				func() {
+					defer func() {
+						if r := recover(); r != nil {
+							cr := analyse(r, debug.Stack())
+							stats.Violation(t, "operands-exhaustive", "C15/panic/"+cr.fp+"/op="+op.String(), fmt.Sprintf("opcode %s with operands (top first) %v in context %d panics: %v", op, ops, ctx, r),
+								map[string]any{"opcode": op.String(), "operands_top_first": ops, "context": ctx, "gas": 200000})
+						}
+					}()
+					o, err = c.Run()
+				}()
+				if err != nil {
+					t.Fatalf("HARNESS: %v", err)
+				}
+				if o == nil || o.Res.Err != nil {
+					t.Fatalf("HARNESS: hand-built transaction rejected")
+				}
+				n++
+				stats.Case("operands-exhaustive", fmt.Sprintf("%s|%d|%d", op, tup, ctx), true, "op:"+op.String(), fmt.Sprintf("status=%d", o.Res.Receipt.Status))
+			}
+		}
+	}
+	stats.Exhaustive("operands-exhaustive")
+	t.Logf("ran %d tuples", n)
+}
